@@ -92,14 +92,18 @@ pub fn plan(_thorough: bool, seed: u64, jobs: &mut Vec<Job>) {
     }
 }
 
-pub fn floors(_t: bool) -> Vec<(&'static str, u64)> {
-    vec![
+pub fn floors(_t: bool, seed: u64) -> Vec<(&'static str, u64)> {
+    let mut v = vec![
         ("quad_nontrivial", 5000),
         ("quad_backtracked", 1000),
         ("quad_history_wrapped(>10 iterations)", 200),
         ("quad_unit_step_accepted_first", 100),
-        ("quad_start_is_optimum", 10),
-    ]
+    ];
+    if seed % 8 == 0 {
+        // only the unshifted start lattice contains the optimum x* = 0 itself
+        v.push(("quad_start_is_optimum", 10));
+    }
+    v
 }
 
 pub fn bounds(_t: bool) -> Value {
